@@ -21,9 +21,15 @@ Leave in the worktree root: SEED_patch.diff (git diff of the non-test source cha
 
 ==================== PROPERTY ====================
 '''
-hints=["Look for a slip that needs a HISTORY: state a service keeps between two calls (a cache, a map, a semaphore, a stored slice, a flag) that is updated wrongly, so that the first call is right and only a second or later call on the same instance misbehaves.",
-       "Look for a slip in the wiring: a constructor (`New`) or a parameter default, a value passed to the wrong parameter of a helper, two parameters of the same type swapped, a field initialised from the wrong option, a unit mix-up (slots vs epochs, ms vs ns).",
-       "Look for a slip in lifetimes and concurrency: a context cancelled too early or never, a goroutine that outlives its caller holding a resource, a channel with the wrong capacity, a lock released one statement too early, a result published before it is complete, a timer based on the wrong instant."]
+hints_by_round={
+ 5:["Look for a slip that needs a HISTORY: state a service keeps between two calls (a cache, a map, a semaphore, a stored slice, a flag) that is updated wrongly, so that the first call is right and only a second or later call on the same instance misbehaves.",
+    "Look for a slip in the wiring: a constructor (`New`) or a parameter default, a value passed to the wrong parameter of a helper, two parameters of the same type swapped, a field initialised from the wrong option, a unit mix-up (slots vs epochs, ms vs ns).",
+    "Look for a slip in lifetimes and concurrency: a context cancelled too early or never, a goroutine that outlives its caller holding a resource, a channel with the wrong capacity, a lock released one statement too early, a result published before it is complete, a timer based on the wrong instant."],
+ 6:["Look for a slip in error handling and partial failure: what becomes of the other results when one of several parallel operations fails, an error swallowed (or a harmless one promoted to fatal), a `defer` that now runs in the wrong order or on the wrong path, a retry that repeats a side effect, a `continue` that became a `return` (or the reverse) inside a loop over validators, relays or nodes.",
+    "Look for a slip in types and conversions: signed vs unsigned, a narrowing conversion or an overflow at a large but legal value, integer division before multiplication, a copy of a struct where the pointer was meant (or the reverse), a map keyed by a formatted string that now collides, a comparison of pointers where values were meant, a slice whose length is taken before it is filtered.",
+    "Look for a slip in the interplay of two options or modes: a feature switch or configuration flag (for example unblinding from all relays, logging of results, sync committee inclusion verification, multi-instance / failover options, grace or delay settings, thresholds) whose non-default value takes a path on which the property no longer holds, or two settings that are each fine alone but wrong together."],
+}
+hints=hints_by_round.get(rnd, hints_by_round[6])
 i=rnd
 for k in sorted(props):
     p=props[k]; a=p['anchors']; q=p['quantifier']
